@@ -28,8 +28,9 @@ def instances():
         if d["gates"]:
             out.append({"kind": "fixed_point", "mech": name, "rename": None})
             out.append({"kind": "fixed_point", "mech": name, "rename": "q7"})
-    out.append({"kind": "rows", "variant": 0})
-    out.append({"kind": "rows", "variant": 1})
+    for hist in ("fresh", "after_init_states", "after_integrate", "after_to_jax"):
+        out.append({"kind": "rows", "variant": 0, "history": hist})
+        out.append({"kind": "rows", "variant": 1, "history": hist})
     return out
 
 
@@ -163,6 +164,16 @@ def run_rows(inst):
         cell.insert(CaL()); cell.branch(1).insert(Na()); cell.branch(0).insert(Na().change_name("na2")); cell.branch(1).comp(0).insert(CaT())
         chans = [CaL(), Na(), Na().change_name("na2"), CaT()]
     n = len(cell.nodes)
+    # history before the values are set: init_states must use the tables as they are NOW
+    hist = inst.get("history", "fresh")
+    if hist == "after_init_states":
+        cell.init_states()
+    elif hist == "after_integrate":
+        cell.select(nodes=[0]).record("v", verbose=False)
+        jx.integrate(cell, t_max=0.05)
+        cell.delete_recordings()
+    elif hist == "after_to_jax":
+        cell.to_jax()
     vs = np.linspace(-93.1, 31.7, n)
     for i in range(n):
         cell.select(nodes=[i]).set("v", float(vs[i]))
@@ -193,7 +204,7 @@ def run_rows(inst):
                 exp = float(ch.init_state(states, jnp.asarray(float(vs[i])), params, 0.025)[key])
                 checked += 1
                 if not (abs(got - exp) <= 1e-9 * (1 + abs(exp))):
-                    res["violations"].append({"signature": {"query": "rows_own_voltage", "channel": ch._name, "variant": inst["variant"]},
+                    res["violations"].append({"signature": {"query": "rows_own_voltage", "channel": ch._name, "variant": inst["variant"], "history": inst.get("history", "fresh")},
                                               "what": f"init_states row {i} {key}: table {got} != init_state at own v/params {exp}",
                                               "replay": {"inst": inst, "row": i, "key": key}})
     other = [c for c in before.columns if c not in sum([list(ch.channel_states) for ch in chans], [])]
